@@ -69,6 +69,7 @@ def hypergraph_structure(U, edges=None, absent=99, batches=True):
             ("add_edges", ((a, b), (b, a)), None, None, None),  # same set twice, two listings
             ("add_edges", ((a, b), big), None, None, None),
             ("add_edges", ((c,), (b, c)), None, None, None),
+            ("add_edges", ((a, c), (b, c)), None, None, (MD1,)),  # metadata list shorter than the batch -> rejected, nothing added
             ("remove_edges", (((a, b), None), (big, None))),
             ("remove_edges", (((b, a), None), ((b, c), None))),
             ("remove_edges", (((a, b), None), ((a, absent), None))),  # second absent -> rejected, nothing removed
@@ -251,6 +252,11 @@ def record_structure(kind_name, U, records, absent=99, absent_record=None, has_c
         u = unsorted_raw(kind_name, r2)
         if u is not None:
             ops.append(("add_edges", (r2, u), (x2, x2) if x2 is not None else None, None, None))
+        ops.append(("add_edges", (r1, r2), (x1, x2) if x1 is not None else None, None, (MD1,)))  # short metadata list -> rejected
+        for bad in invalid_extras[:1]:
+            ops.append(("add_edges", (r1, r2), (x1, bad), None, None))  # second element invalid -> rejected, nothing added
+        if x1 is not None:
+            ops.append(("add_edges", (r1, r2), (x1,), None, None))  # fewer times/layers than hyperedges -> rejected
     return ops
 
 
